@@ -37,7 +37,9 @@ func init() {
 	components["race"] = &component{gen: genRace, run: runRace}
 }
 
-var raceKnownFields = []string{"immutableMTs", "wal", "lastActiveTime", "sstables"}
+// fields with a known, recorded race get their own query case (none on the repaired tree: D21/D22/D39/D40 are fixed,
+// so every race report lands in the `other` query and is a violation)
+var raceKnownFields = []string{}
 
 func genRace(g *gen, n int, tier string, w *bufio.Writer) {
 	per := len(raceKnownFields) + 1
